@@ -1,8 +1,8 @@
 SPECIFICATION Spec
 CONSTANTS
-  KeyU = {1, 2, 3, 4, 5, 6, 7, 8, 9}
+  KeyU = {1, 2, 3, 4, 5, 6, 7, 8, 9, 10, 11, 12}
   ValU = {1}
-  MaxNodes = 9
+  MaxNodes = 12
 INVARIANTS AVLInv Sorted NavOK MinMaxOK ShapeInv
 PROPERTIES Refines WorkBound
 VIEW View
